@@ -60,7 +60,19 @@ def eq_atoms(expr):
     return out
 
 
-def storage_step(ctx, lmax):
+def boundary_lengths(lmax, top):
+    """every length up to lmax, then the lengths around each power of two up to `top` (a search window, a chunk size or an index
+    width shows at such a boundary)"""
+    out = list(range(0, lmax + 1))
+    p = 32
+    while p <= top:
+        out += [x for x in (p - 1, p, p + 1) if x > lmax]
+        p *= 2
+    return sorted(set(out))
+
+
+def storage_step(ctx, lmax, top=None):
+    lengths = boundary_lengths(lmax, top or lmax)
     registry = regmod.build_registry()
     mf = mir.MirFile(mir_path("rspirv"))
     q = Q(ctx)
@@ -80,7 +92,7 @@ def storage_step(ctx, lmax):
     n_paths = 0
 
     def mk_engine():
-        return sym.Engine([mf], registry, models=MODELS, eager=True, loop_bound=lmax + 8)
+        return sym.Engine([mf], registry, models=MODELS, eager=True, loop_bound=max(lengths) + 8)
 
     def token_index(eng, st_mem, tok):
         """Token::index on the returned token, from its MIR."""
@@ -206,7 +218,7 @@ def storage_step(ctx, lmax):
             return n_paths
     except mir.Unsupported as ex:
         ctx.ob("step/append/any-length/encodable", None, "the representation-specific leg cannot be encoded: %s" % str(ex)[:200])
-    for L in range(0, lmax + 1):
+    for L in lengths:
         elems = [sym.Sym("e%d" % i, "T") for i in range(L)]
         v = sym.Sym("v", "T")
         s0 = sym.Adt("sr::storage::Storage", None, [sym.Arr(elems, "vec")])
@@ -326,19 +338,20 @@ def confirm(ctx, tag, opname, eqs, what, lookup=None):
 def run(ctx):
     n = 4 if ctx.tier == "quick" else 6
     lmax = 24 if ctx.tier == "quick" else 64
+    top = 256 if ctx.tier == "quick" else 1024
     hs = ["k_storage_u8_%d" % n, "k_storage_odd_%d" % n, "k_storage_keyed_%d" % n, "k_storage_cross_%d" % min(n, 5)]
     if n > 5:
         hs.append("k_storage_cross_%d" % n)   # optional: exhausts CBMC's memory (14 GB) on this machine; histories of 5 are the required verdict
     ctx.bounds.append("K: histories of <= %d operations, any operation kinds and any u8 values; instantiations Storage<u8>, Storage<Odd>, Storage<Keyed>" % n)
     ctx.bounds.append("M2: one step of append / fetch_or_append from every storage of length 0..%d with opaque values and an uninterpreted "
-                      "equality; lookup through tokens 0..L-1" % lmax)
-    ctx.assumptions += ["outside the bound: fetch_or_append on storages of more than %d elements (M2; append: any length below 2^32) / histories of more than %d operations (K); u32 truncation of the index at 2^32 elements" % (lmax, n),
+                      "equality, and of the lengths 2^k-1, 2^k, 2^k+1 up to %d; lookup through tokens 0..L-1" % (lmax, top + 1))
+    ctx.assumptions += ["outside the bound: fetch_or_append on storages of more than %d elements other than the power-of-two boundary lengths (M2; append: any length below 2^32) / histories of more than %d operations (K); u32 truncation of the index at 2^32 elements" % (lmax, n),
                         "CBMC unwinding assertions are on (a too-small unwind bound is a failure, not a pass)",
                         "M2 summary: Iterator::position = index of the first element the (real, MIR-executed) closure accepts; Vec::push/len/index built-in models"]
     ctx.trusted += ["Kani 0.68 / CBMC 6.11 (cadical)", "scenario code /verif/kani/src/storage.rs (array model)", "rustc MIR (generic, pre-monomorphisation)", "mirsym"]
     ctx.functions.update(["rspirv::sr::storage::Storage::<T>::{new,append,fetch_or_append}", "Index<Token<T>> for Storage<T>", "Token::index"])
     try:
-        paths = storage_step(ctx, lmax)
+        paths = storage_step(ctx, lmax, top)
     except mir.Unsupported as ex:
         ctx.ob("step/encodable", None, "Storage<T> step cannot be encoded: %s" % str(ex)[:300])
         paths = 0
